@@ -8,6 +8,8 @@ buffers/expected lists over 3 event types with multiplicity <= 2 (exhaustive in 
 returns a list exactly when buffer+event covers `expected`, ordered as `expected`, each buffered
 event used once; otherwise emits AddCollectedEvent iff the event's type is still missing;
 (R3) the stale re-run path refreshes the snapshot and re-issues the worker on the same slot.
+Also (R1) completion: no path completes the run (CommandCompleteRun in the step-result reducer) without a loop clearing
+`collected_events` of every worker — a half-filled set must not survive into the next run on the same Context.
 Not decided: arrival orders as such (serialised by the reducer; R1 is order independent).
 """
 
@@ -54,6 +56,40 @@ def run(chk) -> None:
                 if "shared_state.collected_events" in txt and (".collected_events" in txt.replace("shared_state.collected_events", "")):
                     return True
         return False
+
+    # ---- completion: when the reducer completes the run (a StopEvent was returned), every step's collect buffer is emptied with
+    # it, or a half-filled set survives in the Context and the next run on it "collects" an event it never received
+    completes = [c for c in ast.walk(sr) if isinstance(c, ast.Call) and last(call_name(c)) == "CommandCompleteRun"]
+    chk.floor("C09.R1", "run completions issued by the step-result reducer", len(completes), 1)
+
+    def _clears_all(lp: ast.AST) -> bool:
+        if not (isinstance(lp, ast.For) and isinstance(lp.target, (ast.Name, ast.Tuple))):
+            return False
+        it = ast.unparse(lp.iter)
+        if not (it.endswith(".workers.values()") or it.endswith(".workers.items()")):
+            return False
+        names = {n.id for n in ast.walk(lp.target) if isinstance(n, ast.Name)}
+        done = []
+        for x in ast.walk(lp):
+            if isinstance(x, ast.Call) and isinstance(x.func, ast.Attribute) and x.func.attr == "clear" and isinstance(x.func.value, ast.Attribute) and x.func.value.attr == "collected_events" \
+                    and isinstance(x.func.value.value, ast.Name) and x.func.value.value.id in names:
+                done.append(x)
+            if isinstance(x, ast.Assign) and any(isinstance(t, ast.Attribute) and t.attr == "collected_events" and isinstance(t.value, ast.Name) and t.value.id in names for t in x.targets) \
+                    and ((isinstance(x.value, ast.Dict) and not x.value.keys) or (isinstance(x.value, ast.Call) and call_name(x.value) == "dict" and not x.value.args and not x.value.keywords)):
+                done.append(x)
+        from ..astx import iteration_can_skip
+        return bool(done) and not iteration_can_skip(cfg, lp, done)
+
+    clear_loops = [lp for lp in ast.walk(sr) if _clears_all(lp)]
+    clear_nodes = [n for lp in clear_loops for n in cfg.nodes if n.kind == "iter" and n.ast is lp]
+    for c in completes:
+        cn = cfg.nodes_of(enclosing_stmt(c))
+        # a path entry → completion → return that never runs a clear-all loop
+        before = cfg.reach([cfg.entry], blocked=clear_nodes)
+        leak = [n for n in cn if n in before and cfg.exit in cfg.reach([n], blocked=clear_nodes, labels_excluded=("exc", "cancel"))]
+        chk.ob("C09.R1", "completing the run empties every step's collect buffer (a later run on the same context starts collecting from nothing)", not leak, m=mc, node=c, fn=sr,
+               instance="completion:buffers-cleared", reason="a path completes the run (CommandCompleteRun) without clearing `collected_events` of every worker: a partially collected set survives the run "
+               "and is handed to the next run's collect_events together with that run's events (an event is returned that this collection never received, and a received one is dropped)")
 
     # ---- add branch
     add = branch_for(sr, rv, "AddCollectedEvent")
@@ -168,6 +204,11 @@ def run(chk) -> None:
 
 
 TWINS = [
+    Twin("run completion keeps the collect buffers", CL_REL, "                    worker.collected_events.clear()\n", "", "C09.R1"),
+    Twin("buffers cleared only for the completing step", CL_REL, "                for worker in state.workers.values():\n                    worker.collected_events.clear()\n                    worker.collected_waiters.clear()\n",
+         "                worker_state.collected_events.clear()\n                for worker in state.workers.values():\n                    worker.collected_waiters.clear()\n", "C09.R1"),
+    Twin("benign: buffers reset by assignment, in a loop of their own", CL_REL, "                for worker in state.workers.values():\n                    worker.collected_events.clear()\n                    worker.collected_waiters.clear()\n",
+         "                for _name, _ws in state.workers.items():\n                    _ws.collected_events = {}\n                for worker in state.workers.values():\n                    worker.collected_waiters.clear()\n", None),
     Twin("add without stale check", CL_REL, "            if len(collected_events) > len(sent_events):", "            if False:", "C09.R1"),
     Twin("delete even on failure", CL_REL, "            if did_complete_step:  # allow retries to grab the events", "            if True:  # allow retries to grab the events", "C09.R1"),
     Twin("delete drops all buffers", CL_REL, "                state.workers[tick.step_name].collected_events.pop(\n                    result.event_id, None\n                )", "                state.workers[tick.step_name].collected_events.clear()", "C09.R1"),
